@@ -236,6 +236,16 @@ fn main() {
                 Err(e) => say!("panic {:?}", e),
             }
         }
+        Some("solve-debug") => {
+            // debug: run the whole pipeline on an instance code under a hash seed with the default panic hook (backtrace on stderr)
+            let inst = grammar::Inst::from_code(&args[2]).expect("bad code");
+            let seed: u64 = args.get(3).and_then(|s| s.parse().ok()).unwrap_or(1);
+            let input = inst.to_json();
+            hashseed::reset(seed);
+            let pool = rayon::ThreadPoolBuilder::new().num_threads(1).stack_size(64 << 20).build().expect("rayon pool");
+            let out = pool.install(|| server::solve_instance(input));
+            eprintln!("solved: {}", out.get("objectiveValue").map(|o| o.to_string()).unwrap_or_default());
+        }
         Some("count") => {
             for t in ["quick", "thorough"] {
                 let tt = sweep::tier(t, false);
